@@ -2,6 +2,7 @@
 """C04 - precedence, associativity, parentheses.  Theorems: Properties/C04.v over Gen/Grammar.v (generated)."""
 import os
 import sys
+sys.set_int_max_str_digits(0)
 from fractions import Fraction
 
 import interp
@@ -192,6 +193,57 @@ def exact(t):
     return {'<': a < b, '>': a > b, '=': a == b, '<=': a <= b, '>=': a >= b, '<>': a != b}[op]
 
 
+U = Fraction(1, 2 ** 53)
+
+
+def err_bound(t):
+    """(exact value, bound on the absolute error of the double evaluation) by standard forward error propagation; None when a
+    comparison or a division is too close to call in floating point (the case is then skipped: the float caveat) or the value is
+    not numeric.  Leaves are dyadic rationals and integers below 2^53: exact."""
+    k = t[0]
+    if k == 'num':
+        return (t[2] if t[2] is not None else Fraction(t[1])), Fraction(0)
+    if k == 'var':
+        return Fraction(VARS[t[1]]), Fraction(0)
+    if k == 'cell':
+        return Fraction(CELLS[t[1]]), Fraction(0)
+    if k == 'call':
+        parts = [err_bound(a) for a in t[2]]
+        if any(p is None for p in parts):
+            return None
+        if t[1] == 'IDENT':
+            return parts[0]
+        v = sum(p[0] for p in parts)
+        mag = sum(abs(p[0]) + p[1] for p in parts)
+        return v, sum(p[1] for p in parts) + len(parts) * U * mag
+    if k == 'neg':
+        return None if err_bound(t[1]) is None else (-err_bound(t[1])[0], err_bound(t[1])[1])
+    op = t[1]
+    if op == '&':
+        return None
+    a, b = err_bound(t[2]), err_bound(t[3])
+    if a is None or b is None:
+        return None
+    (x, ex), (y, ey) = a, b
+    if op == '+' or op == '-':
+        v = x + y if op == '+' else x - y
+        return v, ex + ey + U * (abs(v) + ex + ey)
+    if op == '*':
+        v = x * y
+        e = abs(x) * ey + abs(y) * ex + ex * ey
+        return v, e + U * (abs(v) + e)
+    if op == '/':
+        if abs(y) <= 2 * ey:
+            return None
+        v = x / y
+        e = (ex + abs(v) * ey) / (abs(y) - ey)
+        return v, e + U * (abs(v) + e)
+    # comparison: decided in floating point only when the operands are clearly apart
+    if abs(x - y) <= 2 * (ex + ey) and not (ex == 0 and ey == 0):
+        return None
+    return Fraction(0), Fraction(0)
+
+
 def host():
     return dict(vars=[(k, (float(v) if isinstance(v, Fraction) else v)) for k, v in sorted(VARS.items())],
                 funs=[('IDENT', 'ident', None)],
@@ -208,10 +260,65 @@ def _impl(c):
     return interp.impl_case(c)
 
 
+def tol_case(formula, t):
+    """the case of a rendering, with the forward error bound of its tree (used by the model-vs-implementation comparison: the
+    model computes in exact rationals, the implementation in doubles)"""
+    c = case_of(formula)
+    want = exact(t)
+    if want == 'DIV0' or isinstance(want, str):
+        c['_tol'] = '0'
+    else:
+        eb = err_bound(t)
+        c['_tol'] = None if eb is None else str(4 * eb[1] + abs(eb[0]) * Fraction(1, 2 ** 50))
+    return c
+
+
+def loose_events(me, ie):
+    """same events in the same order; numeric arguments of call events (intermediate values of a long double computation
+    against exact rationals) within 1e-6 relative"""
+    if len(me) != len(ie):
+        return False
+    for a, b in zip(me, ie):
+        if a[0] != b[0]:
+            return False
+        if a[0] != 'fn':
+            if tuple(a) != tuple(b):
+                return False
+            continue
+        if a[1] != b[1] or len(a[2]) != len(b[2]):
+            return False
+        for x, y in zip(a[2], b[2]):
+            if x[0] in ('I', 'F') and y[0] in ('I', 'F') and not isinstance(y[1], str) and not isinstance(x[1], str):
+                if abs(Fraction(x[1]) - Fraction(y[1])) > Fraction(1, 10 ** 6) * max(1, abs(Fraction(x[1]))):
+                    return False
+            elif x != y:
+                return False
+    return True
+
+
+def eq_tol(c, model, impl):
+    if '_tol' not in c:
+        return interp.eq_case(model, impl)
+    if c['_tol'] is None:
+        return True          # too close to call in floating point: not compared
+    mrec, mev = interp.dec_model(model)
+    irec, iev = impl
+    if mrec == ('UNMODELLED',):
+        return True
+    if not loose_events(mev, iev):
+        return False
+    if mrec[0] == 'R' and irec[0] == 'R' and mrec[1][0] in ('I', 'F') and irec[1][0] in ('I', 'F') and not isinstance(irec[1][1], str):
+        return abs(Fraction(mrec[1][1]) - Fraction(irec[1][1])) <= Fraction(c['_tol']) or interp.same_value(mrec[1], irec[1])
+    return mrec == irec
+
+
 def check_tree(c):
     """the three renderings evaluate identically and equal the exact evaluation of the tree"""
     t, fmin, ffull, frand = c
     want = exact(t)
+    eb = err_bound(t) if want != 'DIV0' and not isinstance(want, str) else (0, 0)
+    if eb is None:
+        return []            # too close to call in floating point (a comparison / divisor within the rounding error bound)
     out = []
     got = {}
     for name, f in (('minimal', fmin), ('full', ffull), ('random-extra', frand)):
@@ -225,9 +332,12 @@ def check_tree(c):
             ok = rec == ('R', ('T', want))
         else:
             ok = rec[0] == 'R' and rec[1][0] in ('I', 'F') and not isinstance(rec[1][1], str) and \
-                abs(Fraction(rec[1][1]) - want) <= abs(want) * Fraction(1, 10 ** 9)
+                abs(Fraction(rec[1][1]) - want) <= 4 * eb[1] + abs(want) * Fraction(1, 2 ** 50)
         if not ok:
             out.append(('%s rendering %s' % (name, f), None, str(want), rec))
+    # whatever the rounding, the three renderings denote the same tree: their outcomes are identical
+    if len(set(map(repr, got.values()))) != 1:
+        out.append(('the three renderings disagree: %s | %s | %s' % (fmin, ffull, frand), None, repr(got['minimal']), repr(got)))
     return out
 
 
@@ -268,7 +378,7 @@ def explore(ctx):
     R = Result()
     rng = ctx.rng
     N = 60000 if ctx.thorough else 2500
-    maxd = 6 if ctx.thorough else 4
+    maxd = 5 if ctx.thorough else 4
     trees = []
     shapes = {}
     for _ in range(N):
@@ -279,8 +389,8 @@ def explore(ctx):
     fixed = ['1+2*3', '(1+2)*3', '2*3+1', '8/4/2', '8/(4/2)', '8-4-2', '8-(4-2)', '-2*3', '-(2*3)', '2*-3', '2--3', '2/-3/4', '2/-3*4',
              '1+2<3+4', '1<2=TRUE', '(1<2)', '(1<2)*5', '1&2&3', '1&2=12', '-1&2', '(1+2)&3', '2*3&4', '1+2&3', '--2', '-(-2)', '((1))',
              '(((1+2)))*(3)', '1-2+3', '1/2*4', '12/-alpha/2', '10/-A1*5']
-    cases = [case_of(f) for tr in trees for f in tr[1:]] + [case_of(f) for f in fixed]
-    compare(R, ctx, 'parse', cases, interp.enc_case, _impl, key=lambda c: c['formula'], eq=interp.eq_case)
+    cases = [tol_case(f, tr[0]) for tr in trees for f in tr[1:]] + [case_of(f) for f in fixed]
+    compare(R, ctx, 'parse', cases, interp.enc_case, _impl, key=lambda c: c['formula'], eqc=eq_tol)
     for vs in pmap(_worker, trees):
         for (c, w, cls, e, g) in vs:
             R.violate({'tree': freeze(c)}, w, cls, repr(e), repr(g))
